@@ -56,7 +56,7 @@ FULL = {"Ns": [5], "Owners": [1, 2, 3], "Ages": [0, 10, 40, 400], "Clusters": [0
         "Ks": [1, 2, 3, 64], "Thrs": Def("{-20, 6, 10, 12}"),
         "TierSeqs": Def("{<<>>, <<1>>, <<2>>, <<3>>, <<1, 2>>, <<1, 3>>, <<2, 3>>, <<1, 2, 3>>}"),
         "TopMs": [1, 2, 3], "RecentDays": [10, 30], "Weights": Def("(0..4) \\X (0..4) \\X (0..4)"),
-        "Scopes": [0, 1, 2], "ResCaps": [0, 1, 32], "SliceCaps": [0, 1, NOCAP], "SampleEps": 0, "SampleCfg": 0}
+        "Scopes": [0, 1, 2], "ResCaps": [0, 1, 2, 32], "SliceCaps": [0, 1, NOCAP], "SampleEps": 0, "SampleCfg": 0}
 NOMENT = Def("{{}}")
 
 
